@@ -35,6 +35,26 @@ def run_shared(prop, invs, tier, seed, level_note, with_d=False):
             suite_cov = suite.check(v, prop, sd)
         if prop == "C06":
             suite_cov["cli_conflicts"] = check_conflicts(v, sd)
+            # the command-line front end as a whole (Cli.tla): which flag combinations may write
+            from . import cliuni
+            (sd / "cli").mkdir()
+            crecs = cliuni.observe(sd / "cli", tier)
+            cfails, cstates = cliuni.evaluate(crecs, sd)
+            for idx, f in cfails:
+                r = crecs[idx]
+                bad = sorted(set(f["fails"]) - {"ExitIs01"})
+                if bad:
+                    v.violation(f"cli:{','.join(bad)}:{' '.join(r['_argv'])}",
+                                f"{bad} for `rustfmt {' '.join(r['_argv'])}`: observed {r['o']}",
+                                {"argv": r["_argv"], "observed": r["o"], "model": f["oper"],
+                                 "stdout": r["_stdout"], "stderr": r["_stderr"]})
+                elif f["model"]:
+                    v.violation(f"cli-model:{','.join(sorted(f['model']))}:{' '.join(r['_argv'])}",
+                                f"Cli.tla: the transcription itself breaks {f['model']}", f)
+                elif not f["asmodel"]:
+                    v.drift += 1
+            suite_cov["cli_combinations"] = len(crecs)
+            suite_cov["cli_states"] = cstates
     for ob, inv in fails:
         if inv not in invs:
             continue
